@@ -45,13 +45,28 @@ import (
 //
 // A pod labelled with a quota that does not exist yet ("awaited" quota) is accounted in the default group, pending or bound;
 // the quota is created later and the harness calls Plugin.migrateDefaultQuotaGroupsPod directly (the function the 1 s timer
-// runs).  Every third case does this deterministically at its start (and deletes that pod, observed, at its end); every case
-// can do it at random.
+// runs).  Every third case does this deterministically at its start (variants by case index, see scripted; that pod is
+// deleted, observed, at the end of the case); every case can do it at random.
 //
-// Generator restrictions that keep the unchanged tree silent (lifted by VERIF_C01P_FREE=1, see the findings in evidence):
-// while a pod is held by the default group under an awaited label, its accounting-relevant fields and its label do not
-// change; between the creation of the awaited quota and the migration call the pod is not deleted or relabelled and, when
-// the quota lives in the default manager (B), not updated at all.
+// Specification of the repaired glue (5a63beb MigratePod leaves a target alone that already holds the pod; 931f7a3 the delete
+// handler also clears the default group): between OnQuotaAdd of the awaited quota and the migration call the pod may be
+// updated (status, resize, bind: it is then filed under the new quota by OnPodUpdate and, until the call, ALSO still held by
+// the default group, which is the code's design and accepted by the oracle) or deleted (both places are cleared).
+//
+// VERIF_C01P_FREE (generator level): 1 (default) generates all of that plus D3 - amounts (request / non-preemptible flag) of a
+// pod change while the default group holds it under an awaited label; the migration then uses the stale FIRST object the
+// group cached: registered open finding, fingerprint C01:request-mismatch:stale-cached-pod; the op line carries the stale
+// object (the model follows the code), `mode 0` is emitted and every figure clause of the oracles in the rest of that case
+// reports that fingerprint.  Still NOT generated at level 1, because the repaired code mis-accounts there too and no finding
+// is registered for it: (a) a label change (removed / other quota / awaited quota) while the default group holds the pod -
+// the cached object keeps the old label, so the migration moves the pod into a quota its last object does not name, or never;
+// (b) D4: a pod resized between OnQuotaAdd and the migration call and deleted before the call - 931f7a3 clears the default
+// group with the LAST object's amounts, the group accounted the older ones.  Level 2 generates these too (investigation only:
+// unregistered fingerprints, and a pod held by two quotas of one tree is beyond the bookkeeping).  Level 0 is the generator
+// from before the repairs (nothing happens to a pod in the window, nothing changes while the default group holds it).
+// Silent by construction: a pod reserved or bound while the default group holds it and then migrated across managers is
+// filed unassigned in its quota (OnPodAdd of the stale object without NodeName) until its next event; the oracles take the
+// assigned flags from the live manager, and the next OnPodUpdate assigns it.
 
 const c01pDMax = int64(1) << 60
 
@@ -110,7 +125,9 @@ type c01pWorld struct {
 	label string // value of the quota-tree-id label on the case's quotas ("" = no label)
 	same  bool   // streams B1/B2: the case's quotas live in the default manager
 	dq    int    // model name of koordinator-default-quota when it is part of the observed manager (same), else 0
-	free  bool   // VERIF_C01P_FREE=1: no generator restrictions around the migration
+	lvl   int    // VERIF_C01P_FREE: 0 = restricted generator, 1 (default) = the repaired windows are generated, 2 = no restriction
+	stale bool   // the glue removed a pod from the default group with an object whose amounts the group did not account (D3)
+	loose bool   // `mode 0` was emitted: the model state is no longer expected to satisfy the local equations
 	specs map[int]*c01pSpec
 	objs  map[int]*schedv1alpha1.ElasticQuota
 	pods  map[int]*c01pPV // last delivered version of every alive pod
@@ -388,7 +405,9 @@ func (w *c01pWorld) emit(root [2][4]int64, qs map[int]*c01pObsQ) {
 			h.Obs("d %d %d %s", k, n, vInts(q.d[k][:]))
 		}
 	}
-	h.Obs("inv 1")
+	if !w.loose {
+		h.Obs("inv 1")
+	}
 	h.Obs("end")
 }
 
@@ -413,6 +432,9 @@ func (w *c01pWorld) recompute(qs map[int]*c01pObsQ, n, k int, memo map[int]*c01p
 			pv := w.pods[id]
 			if pv == nil {
 				continue
+			}
+			if acc := w.defAcc[id]; w.same && n == w.dq && acc != nil {
+				pv = acc // the default group accounts the object that was routed to it last
 			}
 			r := pv.req[k]
 			a.selfReq += r
@@ -450,12 +472,28 @@ func (w *c01pWorld) recompute(qs map[int]*c01pObsQ, n, k int, memo map[int]*c01p
 	return a
 }
 
+// c01pStaleFP is the registered open finding D3 (known_findings.json): the plugin's migration hands MigratePod / OnPodAdd /
+// OnPodDelete the FIRST object the default group cached, not the amounts the group accounts.
+const c01pStaleFP = "C01:request-mismatch:stale-cached-pod"
+
 func (w *c01pWorld) bad(fp, f string, a ...interface{}) {
-	if !w.fail {
-		w.fail = true
-		w.h.Fail(fp, f, a...)
+	if w.fail {
+		return
 	}
+	w.fail = true
+	if w.stale {
+		switch fp {
+		case "C01:quota-set", "C01:pod-membership", "C01:default-group-membership":
+		default: // a figure mismatch after a pod of this history was migrated with a stale cached object
+			w.h.Tag("pl:known-finding-stale-cached-pod")
+			w.h.Fail(c01pStaleFP, "[after a migration with a stale cached pod object; clause "+fp+"] "+f, a...)
+			return
+		}
+	}
+	w.h.Fail(fp, f, a...)
 }
+
+func c01pAmtDiff(a, b *c01pPV) bool { return a.req != b.req || a.np != b.np }
 
 // oracle: the statement of C01 evaluated from scratch on the plugin's own report (fingerprints as in the core harness).
 func (w *c01pWorld) oracle(root [2][4]int64, qs map[int]*c01pObsQ) {
@@ -658,6 +696,9 @@ func (w *c01pWorld) freshBuild(qs map[int]*c01pObsQ, place func(n, id int) int) 
 			if pv == nil || to == 0 {
 				continue
 			}
+			if acc := w.defAcc[id]; w.same && to == w.dq && acc != nil {
+				pv = acc
+			}
 			name := w.qname(to)
 			fresh.OnPodAdd(name, pv.obj)
 			want, have := qs[n].pods[id], false
@@ -827,24 +868,28 @@ func (w *c01pWorld) opPodAdd(force int) int {
 	return pv.id
 }
 
-func (w *c01pWorld) opPodUpdate(id int) {
+// opPodUpdate: OnPodUpdate; force >= 0 fixes the kind of change.
+func (w *c01pWorld) opPodUpdate(id int, force int) {
 	r, h := w.r, w.h
 	qids := w.qids()
 	old := w.pods[id]
 	nv := *old
 	nv.rv = old.rv + 1
 	kind := r.Intn(10)
-	if !w.free {
-		// see the header: what must not happen to a pod the default group holds under an awaited label
+	if force >= 0 {
+		kind = force
+	}
+	if w.lvl < 2 {
+		// see the header: what is not generated for a pod the default group holds
 		switch {
 		case w.waiting(id):
-			if kind != 5 && kind != 7 {
+			if w.lvl == 0 && kind != 5 && kind != 7 || kind == 6 || kind == 8 {
 				kind = 9
 			}
-		case w.eligible(id) && w.same:
-			kind = 7
 		case w.eligible(id):
-			if kind == 5 || kind == 6 || kind == 8 {
+			if w.lvl == 0 && w.same {
+				kind = 7
+			} else if kind == 5 || kind == 6 || kind == 8 {
 				kind = 9
 			}
 		case w.def[id] != nil:
@@ -879,8 +924,25 @@ func (w *c01pWorld) opPodUpdate(id int) {
 	w.mkPod(&nv)
 	ro, rn := w.res(old), w.res(&nv)
 	h.Tag("pl:pod-update")
-	if w.eligible(id) && nv.rv != old.rv {
-		h.Tag("pl:pod-update-between-quota-add-and-migration")
+	if nv.rv != old.rv {
+		if w.eligible(id) {
+			h.Tag("pl:pod-update-between-quota-add-and-migration")
+			if nv.node && !old.node {
+				h.Tag("pl:pod-bound-between-quota-add-and-migration")
+			}
+		} else if w.waiting(id) && c01pAmtDiff(&nv, old) {
+			h.Tag("pl:pod-resized-while-default-group-holds-it-awaiting")
+		}
+	}
+	// enter / leave: bookkeeping of "add if the quota does not cache it" / "remove if it does" (core OnPodAdd/Update/Delete)
+	enterDef := func() {
+		if w.def[id] == nil {
+			w.def[id], w.defAcc[id] = &nv, &nv
+		}
+	}
+	leaveDef := func() {
+		delete(w.def, id)
+		delete(w.defAcc, id)
 	}
 	switch {
 	case nv.rv == old.rv:
@@ -890,19 +952,21 @@ func (w *c01pWorld) opPodUpdate(id int) {
 		h.Op("pupd %d %d %s %s", rn, ro, w.toks(&nv), w.toks(old))
 		if ro != rn {
 			if ro == w.dq {
-				delete(w.def, id)
-				delete(w.defAcc, id)
-				h.Tag("pl:pod-update-leaves-default-group")
+				if w.def[id] != nil {
+					h.Tag("pl:pod-update-leaves-default-group")
+				}
+				leaveDef()
 			} else if w.home[id] == ro {
 				w.home[id] = 0
 			}
 		}
 		if rn == w.dq {
 			if w.def[id] == nil {
-				w.def[id] = &nv
 				h.Tag("pl:pod-update-enters-default-group")
+				enterDef()
+			} else if ro == rn {
+				w.defAcc[id] = &nv
 			}
-			w.defAcc[id] = &nv
 		} else {
 			w.home[id] = rn
 		}
@@ -912,22 +976,22 @@ func (w *c01pWorld) opPodUpdate(id int) {
 	case ro != 0: // cross-tree: OnPodDelete in the tree, OnPodAdd in the default manager
 		h.Op("pdel %d %s", ro, w.toks(old))
 		h.Tag("pl:pod-update-leaves-tree")
-		w.home[id] = 0
-		if w.def[id] == nil {
-			w.def[id], w.defAcc[id] = &nv, &nv
+		if w.home[id] == ro {
+			w.home[id] = 0
 		}
+		enterDef()
 	case rn != 0: // cross-tree: OnPodDelete in the default manager, OnPodAdd in the tree
 		h.Op("padd %d %s", rn, w.toks(&nv))
 		h.Tag("pl:pod-update-enters-tree")
-		delete(w.def, id)
-		delete(w.defAcc, id)
+		leaveDef()
 		w.home[id] = rn
 	default: // OnPodUpdate inside the default manager
 		h.Op("refresh 0")
 		if w.def[id] == nil {
-			w.def[id] = &nv
+			enterDef()
+		} else {
+			w.defAcc[id] = &nv
 		}
-		w.defAcc[id] = &nv
 	}
 	if nv.rv != old.rv {
 		w.pods[nv.id] = &nv
@@ -939,23 +1003,62 @@ func (w *c01pWorld) opPodUpdate(id int) {
 	w.observe()
 }
 
+// deletable: see the header (finding D4): not generated below level 2 for a pod that was resized between the creation of its
+// awaited quota and the migration call - the delete handler then clears the default group with the wrong amounts.
+func (w *c01pWorld) deletable(id int) bool {
+	switch {
+	case w.lvl >= 2:
+		return true
+	case w.lvl == 0:
+		return !w.eligible(id)
+	}
+	return !(w.eligible(id) && c01pAmtDiff(w.pods[id], w.defAcc[id]))
+}
+
+// opPodDelete: OnPodDelete.  Specification (pod_handler.go, repaired by 931f7a3): OnPodDelete(resolved quota, object) in the
+// manager of that quota and, when the resolved quota is not the default group, also OnPodDelete(default group, object) in the
+// default manager.  Op lines are emitted only for the quotas that cache the pod; when both the resolved quota and the default
+// group do (default-manager streams, pod updated between OnQuotaAdd and the migration call) the model needs two lines and a
+// block in between: the harness exposes that state by calling core OnPodDelete(resolved quota) itself first, so the plugin
+// call that follows has only the default group left to clear.
 func (w *c01pWorld) opPodDelete(id int) {
 	r, h := w.r, w.h
 	pv := w.pods[id]
 	h.Tag("pl:pod-delete")
 	q := w.res(pv)
-	if q != 0 {
-		h.Op("pdel %d %s", q, w.toks(pv))
-	} else {
-		h.Op("refresh 0")
-	}
-	if q == w.dq { // OnPodDelete reaches the default group
-		if w.def[id] != nil && w.def[id].label > 1 {
+	inQ := q != 0 && q != w.dq && w.home[id] == q
+	inDef := w.def[id] != nil
+	if inDef && w.def[id].label > 1 {
+		if w.eligible(id) {
+			h.Tag("pl:pod-delete-between-quota-add-and-migration")
+		} else {
 			h.Tag("pl:pod-delete-in-default-group-awaiting")
 		}
-		delete(w.def, id)
-		delete(w.defAcc, id)
-	} else if w.home[id] == q {
+	}
+	if inDef && c01pAmtDiff(pv, w.defAcc[id]) {
+		w.markStale() // level 2 only (D4)
+	}
+	two := w.same && inQ && inDef
+	switch {
+	case two:
+		h.Op("pdel %d %s", q, w.toks(pv))
+		h.Tag("pl:pod-delete-from-quota-and-default-group")
+		if h.Guard(func() { w.mgr().OnPodDelete(w.qname(q), pv.obj) }) {
+			h.Obs("panic")
+			return
+		}
+		w.emit(w.live())
+		h.Op("pdel %d %s", w.dq, w.toks(pv))
+	case w.same && inDef:
+		h.Op("pdel %d %s", w.dq, w.toks(pv))
+	case q != 0:
+		h.Op("pdel %d %s", q, w.toks(pv))
+	default:
+		h.Op("refresh 0")
+	}
+	delete(w.def, id)
+	delete(w.defAcc, id)
+	if w.home[id] == q {
 		delete(w.home, id)
 	}
 	delete(w.pods, id)
@@ -968,6 +1071,19 @@ func (w *c01pWorld) opPodDelete(id int) {
 		return
 	}
 	w.observe()
+}
+
+// markStale: from here on the accounting is wrong in the way of the registered finding D3; the model is fed what the code
+// really does (the stale object), so it reproduces the wrong figures, but its state no longer satisfies the local equations.
+func (w *c01pWorld) markStale() {
+	if !w.stale {
+		w.stale = true
+		w.h.Tag("pl:stale-cached-pod-migrated")
+	}
+	if !w.loose {
+		w.loose = true
+		w.h.Op("mode 0")
+	}
 }
 
 func (w *c01pWorld) opReserve(id int, un bool) {
@@ -1000,22 +1116,38 @@ func (w *c01pWorld) opReserve(id int, un bool) {
 }
 
 // opMigrate calls the plugin's periodic migration once.  Specification (plugin_helper.go): every pod cached by the default
-// group whose CACHED object names a quota the plugin knows leaves the default group; if that quota lives in another manager
-// (stream A) that manager gets OnPodAdd(quota, cached object) (no effect when it already caches the pod), otherwise (stream B)
-// the default manager runs MigratePod(cached object, default, quota).  One call can move several pods (the order, a Go map
-// iteration, does not matter for the figures); the model driver wants one operation and one observation block per pod, so the
-// blocks between them - states the call never exposes - are read off fresh managers fed the final objects with the pods that
-// are moved later still left out (stream A) / still in the default group (stream B).  The block after the last one is the
-// live observation, as everywhere.
+// group whose CACHED object names a quota the plugin knows leaves the default group (amounts of the cached object are
+// subtracted); if that quota lives in another manager (stream A) that manager gets OnPodAdd(quota, cached object) (no effect,
+// and no op line, when it already caches the pod), otherwise (stream B) the default manager runs
+// MigratePod(cached object, default, quota), which since 5a63beb leaves a target that already holds the pod alone.
+// The cached object is the FIRST one the default group saw: when the pod's amounts changed since (D3, registered finding)
+// the line carries that stale object, `mode 0` is emitted and the oracle's figure clauses report the registered fingerprint.
+// One call can move several pods (the order, a Go map iteration, does not matter for the figures); the model driver wants one
+// operation and one observation block per pod.  The blocks between them - states the call never exposes - are read off fresh
+// managers fed the final objects with the pods that are moved later still left out (stream A) / still in the default group
+// (stream B); when that is not possible (a stale object involved, or a pod both quotas hold) the harness performs the
+// specified core calls for all but the last pod itself and lets the plugin's call do the rest.  The block after the last
+// line is the live observation after the plugin's call, as everywhere.
 func (w *c01pWorld) opMigrate() {
 	h := w.h
-	var ids, moved []int
+	type mv struct {
+		id, x int
+		d     *c01pPV
+	}
+	var ids []int
+	var moved []mv
 	for id := range w.def {
 		if w.eligible(id) {
 			ids = append(ids, id)
 		}
 	}
 	sort.Ints(ids)
+	for _, id := range ids {
+		if c01pAmtDiff(w.def[id], w.defAcc[id]) {
+			w.markStale() // `mode 0` goes before the first line of the call
+		}
+	}
+	direct := false
 	for _, id := range ids {
 		d := w.def[id]
 		x := d.label
@@ -1025,12 +1157,16 @@ func (w *c01pWorld) opMigrate() {
 		}
 		switch {
 		case w.same:
+			if w.home[id] == x {
+				direct = true
+				h.Tag("pl:migrate-same-manager-target-holds-pod")
+			}
 			h.Op("migrate %d %d %s", w.dq, x, w.toks(d))
-			moved = append(moved, id)
+			moved = append(moved, mv{id, x, d})
 			h.Tag("pl:migrate-same-manager-" + kind)
 		case w.home[id] != x:
 			h.Op("padd %d %s", x, w.toks(d))
-			moved = append(moved, id)
+			moved = append(moved, mv{id, x, d})
 			h.Tag("pl:migrate-cross-tree-" + kind)
 		default:
 			h.Tag("pl:migrate-cross-tree-already-there")
@@ -1046,17 +1182,36 @@ func (w *c01pWorld) opMigrate() {
 		}
 	}
 	h.Tag("pl:migrate-call")
+	direct = direct || w.stale
+	if len(moved) > 1 && direct {
+		h.Tag("pl:migrate-several-pods-stepwise")
+		for _, m := range moved[:len(moved)-1] {
+			m := m
+			if h.Guard(func() {
+				if w.same {
+					w.mgr().MigratePod(m.d.obj, extension.DefaultQuotaName, w.qname(m.x))
+				} else {
+					w.pl.groupQuotaManager.OnPodDelete(extension.DefaultQuotaName, m.d.obj)
+					w.mgr().OnPodAdd(w.qname(m.x), m.d.obj)
+				}
+			}) {
+				h.Obs("panic")
+				return
+			}
+			w.emit(w.live())
+		}
+	}
 	if h.Guard(func() { w.pl.migrateDefaultQuotaGroupsPod() }) {
 		h.Obs("panic")
 		return
 	}
-	if len(moved) > 1 {
+	if len(moved) > 1 && !direct {
 		h.Tag("pl:migrate-several-pods-in-one-call")
 		_, qs := w.live()
 		for i := 1; i < len(moved); i++ {
 			later := map[int]bool{}
-			for _, id := range moved[i:] {
-				later[id] = true
+			for _, m := range moved[i:] {
+				later[m.id] = true
 			}
 			fresh := w.freshBuild(qs, func(n, id int) int {
 				if later[id] {
@@ -1179,11 +1334,11 @@ func (w *c01pWorld) step() {
 		}
 		w.opPodAdd(0)
 	case x < 76: // OnPodUpdate
-		w.opPodUpdate(pids[r.Intn(len(pids))])
-	case x < 84: // OnPodDelete (restricted: not between the creation of the pod's awaited quota and the migration)
+		w.opPodUpdate(pids[r.Intn(len(pids))], -1)
+	case x < 84: // OnPodDelete
 		var cands []int
 		for _, id := range pids {
-			if w.free || !w.eligible(id) {
+			if w.deletable(id) {
 				cands = append(cands, id)
 			}
 		}
@@ -1209,12 +1364,23 @@ func (w *c01pWorld) step() {
 
 // scripted: the migration scenario, deterministically: a pod (pending or bound) labelled with a quota that does not exist
 // yet, possibly reserved while the default group holds it, then OnQuotaAdd of that quota, then the plugin's migration.
-func (w *c01pWorld) scripted() int {
+// variant (fixed by the case index): 1 = the pod is updated (status only / resized / bound) between OnQuotaAdd and the
+// migration call (D1, repaired by 5a63beb), 2 = it is deleted in that window (D2, repaired by 931f7a3), 3 = it is resized /
+// its non-preemptible flag flips while the default group holds it, before the quota exists (D3, registered finding; level >= 1),
+// 4 = a second pod waits for the same quota, 0 = nothing special.
+func (w *c01pWorld) scripted(variant int) int {
 	r := w.r
+	if w.lvl == 0 && variant < 4 {
+		variant = 0
+	}
 	for i := r.Range(1, 2); i > 0; i-- {
 		w.opQuotaAdd(0)
 	}
-	id := w.opPodAdd(1 + r.Intn(2))
+	force := 1 + r.Intn(2)
+	if variant == 1 && r.Chance(1, 2) {
+		force = 1 // pending, so that the update in the window can be the bind
+	}
+	id := w.opPodAdd(force)
 	f := w.pods[id].label
 	for i := r.Intn(3); i > 0; i-- {
 		w.step()
@@ -1222,11 +1388,28 @@ func (w *c01pWorld) scripted() int {
 	if pv := w.pods[id]; pv != nil && w.waiting(id) && !pv.node && r.Chance(1, 3) {
 		w.opReserve(id, false)
 	}
-	if w.specs[f] == nil && r.Chance(1, 3) {
+	if variant == 3 && w.pods[id] != nil && w.waiting(id) {
+		w.opPodUpdate(id, r.Intn(2))
+		w.h.Tag("pl:scripted-D3-resize-while-awaiting")
+	}
+	if w.specs[f] == nil && (variant == 4 || r.Chance(1, 4)) {
 		w.opPodAdd(f) // a second pod waiting for the same quota: one migration call moves both
 	}
 	if w.specs[f] == nil {
 		w.opQuotaAdd(f)
+	}
+	if w.pods[id] != nil && w.eligible(id) {
+		switch variant {
+		case 1:
+			w.opPodUpdate(id, []int{9, 0, 2, 2}[r.Intn(4)])
+			w.h.Tag("pl:scripted-D1-update-in-window")
+			if r.Chance(1, 3) && w.deletable(id) {
+				w.opPodDelete(id) // held by its quota AND the default group: both are cleared
+			}
+		case 2:
+			w.opPodDelete(id)
+			w.h.Tag("pl:scripted-D2-delete-in-window")
+		}
 	}
 	if r.Chance(1, 3) {
 		w.step()
@@ -1265,6 +1448,13 @@ func (w *c01pWorld) cleanup() {
 	if fig != w.base {
 		w.bad("C01:default-group-residue", "after every pod of the case was deleted the default group reports %v, before the case %v (used npUsed request npRequest per dimension)", fig, w.base)
 	}
+	if fig != ([2][4]int64{}) {
+		// D3 leaves amounts in the default group for good; the next case starts from a clean default manager (no pod and no quota
+		// of any case is left in it), built the way the plugin builds it
+		pl.groupQuotaManager = core.NewGroupQuotaManager("", pl.pluginArgs.EnableMinQuotaScale, pl.pluginArgs.SystemQuotaGroupMax, pl.pluginArgs.DefaultQuotaGroupMax)
+		_ = pl.groupQuotaManager.InitHookPlugins(pl.pluginArgs)
+		w.h.Tag("pl:default-manager-reset-after-residue")
+	}
 }
 
 func TestVerifC01Plugin(t *testing.T) {
@@ -1276,14 +1466,20 @@ func TestVerifC01Plugin(t *testing.T) {
 	suit := newPluginTestSuit(t, nil)
 	pl := suit.createPlugin(t).(*Plugin)
 	setLoglevel("0")
-	free := os.Getenv("VERIF_C01P_FREE") == "1"
+	lvl := 1
+	switch os.Getenv("VERIF_C01P_FREE") {
+	case "0":
+		lvl = 0
+	case "2":
+		lvl = 2
+	}
 	n := h.N(150, 3000)
 	for idx := 0; idx < n; idx++ {
 		r := h.Begin(idx)
 		if r == nil {
 			continue
 		}
-		w := &c01pWorld{h: h, r: r, pl: pl, idx: idx, free: free, specs: map[int]*c01pSpec{},
+		w := &c01pWorld{h: h, r: r, pl: pl, idx: idx, lvl: lvl, specs: map[int]*c01pSpec{},
 			objs: map[int]*schedv1alpha1.ElasticQuota{}, pods: map[int]*c01pPV{}, def: map[int]*c01pPV{}, defAcc: map[int]*c01pPV{},
 			home: map[int]int{}, nextQ: 2, nextP: 1}
 		restore := func() {}
@@ -1316,7 +1512,7 @@ func TestVerifC01Plugin(t *testing.T) {
 		mid := r.Range(5, nops-1)
 		target := 0
 		if idx%3 == 0 {
-			target = w.scripted()
+			target = w.scripted((idx / 3) % 5)
 			nops -= 6
 		}
 		for i := 0; i < nops; i++ {
@@ -1346,7 +1542,9 @@ func TestVerifC01Plugin(t *testing.T) {
 		"quota label present / absent / unknown / moved / naming a quota that is created later, same-ResourceVersion resyncs, DeletedFinalStateUnknown, duplicate OnQuotaAdd) in one shared plugin; " +
 		"stream A (5/8): MultiQuotaTree on, one quota tree per case, default group checked by a Go oracle, migration = OnPodAdd of the object cached by the default group; " +
 		"streams B1 (1/4, no tree label) and B2 (1/8, MultiQuotaTree off): the case's quotas live in the default manager, koordinator-default-quota is an observed quota, migration = MigratePod(default -> X); " +
-		"every third case starts with the scripted scenario pod (pending | bound | reserved in the default group) before quota -> OnQuotaAdd -> migration -> ... -> delete; " +
+		"every third case starts with the scripted scenario pod (pending | bound | reserved in the default group) before quota -> OnQuotaAdd -> migration -> ... -> delete, in five variants by index: plain, " +
+		"D1 pod updated/bound between OnQuotaAdd and the migration call, D2 pod deleted in that window, D3 pod resized while the default group holds it (registered finding, own fingerprint), two pods in one call; " +
+		"the same happens at random in every case (VERIF_C01P_FREE=0 restores the restricted generator); " +
 		"a fresh manager is fed the final objects in the middle and at the end of every case; " +
 		"non-trivial = some quota's request exceeded its max")
 }
